@@ -47,7 +47,8 @@ def run_demo(copy: str, demo: str):
 def run_check(copy: str, prop: str, tier: str, scale: float, seed: int = 1):
     t = time.time()
     p = subprocess.run([os.path.join(VERIF, "run.py"), "check", prop, "--tier", tier, "--scale", str(scale)],
-                       env=dict(os.environ, VERIF_REPO=copy, VERIF_SEED=str(seed)), capture_output=True, text=True)
+                       env=dict(os.environ, VERIF_REPO=copy, VERIF_SEED=str(seed), VERIF_EVIDENCE_DIR=os.path.join(copy, ".verif-evidence")),
+                       capture_output=True, text=True)
     out = p.stdout + p.stderr
     sigs = [l.strip()[len("signature:"):].strip() for l in out.splitlines() if l.strip().startswith("signature:")]
     rd = os.path.join(VERIF, "replays", prop)
